@@ -190,6 +190,16 @@ def custom_builder(resonance, variable_pool):
     return par * f(v.incoming_state_mass, v.outgoing_state_mass1, v.outgoing_state_mass2, v.helicity_phi, v.helicity_theta), {par: 1.0}
 
 
+def colliding_builder(resonance, variable_pool):
+    """A user builder whose parameter is NAMED like a kinematic variable of its node (a different symbol: no
+    assumptions). Symbol closure must hold symbol by symbol."""
+    import sympy as sp
+
+    v = variable_pool
+    par = sp.Symbol(v.incoming_state_mass.name)  # same name, different assumptions
+    return par * v.incoming_state_mass + v.helicity_theta, {par: 1.5}
+
+
 def builders():
     from ampform.dynamics import builder as bld
 
@@ -202,17 +212,26 @@ def builders():
     }
 
 
-def make_builder(reaction, cfg: dict):
+def new_builder(reaction):
     from ampform.helicity import CanonicalAmplitudeBuilder, HelicityAmplitudeBuilder
+
+    canonical = reaction.formalism in {"canonical-helicity", "canonical"}
+    return (CanonicalAmplitudeBuilder if canonical else HelicityAmplitudeBuilder)(reaction)
+
+
+def apply_config(b, reaction, cfg: dict, permuted_before: bool = False):
+    """Set every configuration item of `cfg` on an EXISTING builder (dynamics assignments accumulate)."""
+    from ampform.helicity.align import NoAlignment
     from ampform.helicity.align.axisangle import AxisAngleAlignment
     from ampform.helicity.align.dpd import DalitzPlotDecomposition
 
     canonical = reaction.formalism in {"canonical-helicity", "canonical"}
-    b = (CanonicalAmplitudeBuilder if canonical else HelicityAmplitudeBuilder)(reaction)
     if cfg["align"] == "a":
         b.config.spin_alignment = AxisAngleAlignment()
     elif cfg["align"].startswith("d"):
         b.config.spin_alignment = DalitzPlotDecomposition(reference_subsystem=int(cfg["align"][1]))
+    else:
+        b.config.spin_alignment = NoAlignment()
     b.config.stable_final_state_ids = cfg["stable"]
     b.config.scalar_initial_state_mass = cfg["scalar"]
     b.config.use_helicity_couplings = cfg["hc"]
@@ -223,9 +242,76 @@ def make_builder(reaction, cfg: dict):
     table = builders()
     for name, kind in cfg["dyn"]:
         b.dynamics.assign(name, table[kind])
-    if cfg.get("perm", False):
+    if cfg.get("perm", False) and not permuted_before:
         b.adapter.permutate_registered_topologies()
     return b
+
+
+def make_builder(reaction, cfg: dict):
+    return apply_config(new_builder(reaction), reaction, cfg)
+
+
+def real_history(reaction, cfgs: list[dict]):
+    """Drive ONE builder through a sequence of configurations; returns the extracted answer of every formulate()
+    together with the EFFECTIVE configuration (dynamics accumulate, permuted topologies stay registered) and the
+    oracle failures of every model."""
+    lvl = logging.root.manager.disable
+    logging.disable(logging.WARNING)
+    out = []
+    try:
+        b = new_builder(reaction)
+        dyn: list = []
+        perm = False
+        for cfg in cfgs:
+            eff = {**cfg, "dyn": [*dyn, *cfg["dyn"]], "perm": perm or cfg.get("perm", False)}
+            try:
+                apply_config(b, reaction, cfg, permuted_before=perm)
+                dyn, perm = eff["dyn"], eff["perm"]
+                model = b.formulate()
+                out.append((eff, extract(model), oracle(model)))
+            except ERRS as e:
+                dyn, perm = eff["dyn"], eff["perm"]
+                out.append((eff, {"error": type(e).__name__}, []))
+        return out
+    finally:
+        logging.disable(lvl)
+
+
+def roundtrip_checks(model) -> list[dict]:
+    """Rule 8: symbol closure still holds after a pickle round trip and after rename_symbols (fresh names)."""
+    import pickle
+
+    bad = []
+    ref = extract(model)
+    try:
+        m2 = pickle.loads(pickle.dumps(model))
+    except Exception as e:  # noqa: BLE001
+        return [{"what": "pickle round trip of the model raised", "error": type(e).__name__ + ": " + str(e)[:200]}]
+    if extract(m2) != ref:
+        bad.append({"what": "symbol sets differ after a pickle round trip"})
+    bad += [{**f, "what": f["what"] + " (after pickle round trip)"} for f in oracle(m2)]
+    pars = [p.name for p in model.parameter_defaults if hasattr(p, "name")]
+    kins = [k.name for k in model.kinematic_variables]
+    renames = {}
+    if pars:
+        renames[pars[0]] = pars[0] + "_renamed"
+    if kins:
+        renames[kins[-1]] = kins[-1] + "_renamed"
+    if renames:
+        m3 = model.rename_symbols(renames)
+        bad += [{**f, "what": f["what"] + " (after rename_symbols)", "renames": renames} for f in oracle(m3)]
+        e3 = extract(m3)
+        inv = {v: k for k, v in renames.items()}
+        back = lambda n: inv.get(n, n)  # noqa: E731
+        mapped = {
+            "params": sorted(back(n) for n in e3["params"]),
+            "free": sorted(back(n) for n in e3["free"]),
+            "kin": dict(sorted((back(k), sorted(back(d) for d in v)) for k, v in e3["kin"].items())),
+        }
+        for key in mapped:
+            if mapped[key] != ref[key]:
+                bad.append({"what": f"{key} of the renamed model is not the renamed {key} of the model", "renames": renames})
+    return bad
 
 
 def unfold(expr):
